@@ -48,6 +48,8 @@ mod node;
 mod root;
 mod signals;
 mod utils;
+#[cfg(sycamore_verif)]
+pub mod verif;
 
 pub use context::*;
 pub use effects::*;
